@@ -68,6 +68,30 @@ C['C17'] = dict(cat='model_checking', tech=MC + " combined with exhaustive enume
     text="All known-hosts files of <=2/<=3 lines over 10 line kinds x contacted host sets x 12 answers + trust-all, the callback obtained directly and through the client's real InitSSHAuthMethods (explicit key file, ~/.ssh/id_rsa), shutdown of the client inside the prompt's collection window, a re-connect with a changed key; part 2 (native): the real dcat binary contacting a server process BY NAME for every subset of known_hosts entry kinds (name/address x right/other key) x answers; the real host-key callbacks run as goroutines against the real prompt loop under the controlled scheduler (all schedules with <=1 deviation); oracle: proceed iff knownhosts accepts or the user approved or trust-all; refused hosts are reported untrusted; rewritten file keeps unrelated entries intact.",
     ref="DESIGN.md 3.1-3.3, 4 (C17)")
 
+# additions of the seventh round of independent changes (DESIGN.md 9.10)
+ADD = {
+ 'C01': " Also four kernel pseudo files (readable regular files whose stat size, 0, is not their length) through the real binary, serverless and through a server process.",
+ 'C02': " Also gzip/zstd files and files with an unterminated last line on slow disks and under a uniformly slow consumer (900-1000-line files: the end of the file is reached seconds after the start, behind full queues).",
+ 'C04': " Also 12 s follows without rotation of the file itself, of a symbolic link to it, of a chain of two links and of a relative link.",
+ 'C05': " Also complete dmap sessions over files holding six tables whose names are prefixes, suffixes and infixes of each other.",
+ 'C06': " Also files whose last line is unterminated, on a disk slow enough that the end of the file coincides with the reader's periodic checks.",
+ 'C07': " Also the client side alone: two servers' wire streams reach two real client handlers in transport reads, in EVERY arrival order, in a client process whose own MaxLineLength differs from the servers'.",
+ 'C08': " Also 24 JSON configuration files (Default absent/empty/two lists x the user's own entry absent/[]/null/three lists) loaded through the real config.Setup.",
+ 'C09': " The handshakes include 19 user names of 1..200 bytes (dots, dashes, '@domain', upper-case and non-ASCII letters), each with its listed and an unlisted key.",
+ 'C10': " Also 23 well-formed query shapes with every slot filled by each of 13 non-ASCII words (invalid UTF-8, letters whose case mapping changes the byte length, wide and combining characters, NUL).",
+ 'C11': " Also the NUMBER of interval and limit in 14 decimal spellings (zero padded, long) x 4 keyword spellings x 3 clause positions.",
+ 'C13': " The native part also replays two histories around the server's LAST connection going away while its read is still winding down (then a second and a third follow): never two files read at once with tail limit 1.",
+ 'C14': " The controlled runtime models sync.RWMutex with Go's writer preference (a recursive read lock with a writer arriving in between is reported as a deadlock); the native part bounds every question to the server's counter.",
+ 'C15': " The 1-row query also in two other spellings (a longer text of which the base text is a strict prefix, and one of the same length); after every completed run, in both modes, .query must hold exactly the text of the query that ran.",
+ 'C16': " Also AGGREGATE records whose group keys and values are multi-byte, wide or invalid UTF-8 (result table cells).",
+ 'C17': " The line kinds include a @revoked line for the very key a host presents; a third host presents a host certificate of an authority no line names.",
+ 'C18': " Also all lists of length <=3 over {a, the EMPTY entry, b:2222} as comma list and through the module with 8 filters incl. //, /./, /.*/ and /^$/.",
+}
+for k, v in ADD.items():
+    C[k]['text'] += v
+    if '9.10' not in C[k]['ref']:
+        C[k]['ref'] += ", 9.10"
+
 PENDING = "check not built yet in this session (work in progress; see DESIGN.md section 4)"
 checks = []
 for pid in sorted(C):
